@@ -196,6 +196,8 @@ class Interp:
                 return len(self.sev(e.args[0], fr, env, ctx))
             if n == "shape":
                 return self.sev(e.args[0], fr, env, ctx).shape[e.args[1].value]
+            if n == "view_index":
+                raise Unsupported("view_index in concrete mode")
             if n == "rev_seg":
                 a = self.sev(e.args[0], fr, env, ctx).copy()
                 i_, j_ = pyval(self.sev(e.args[1], fr, env, ctx)), pyval(self.sev(e.args[2], fr, env, ctx))
